@@ -61,7 +61,7 @@ def interleaving(kind, seed, steps=25):
                 kw = {}
                 if kind != "positive":
                     b = np.array([["Z"] * m.num_visible for _ in range(N)])
-                    b[1, 0] = "X"
+                    b[1, 0] = "X" if "X" in m.unitary_dict else "H"      # only letters the state's dictionary knows
                     kw["input_bases"] = b
                 m.fit(data, epochs=1, pos_batch_size=2, lr=0.1, **kw)
             elif op in ("save", "save-again"):
